@@ -157,7 +157,7 @@ PROPS = {
         "exhaustive small-scope enumeration with a direct oracle",
         [job("main", "^TestC18$", q=2, th=4)], exhaustive_only=True),
     "C19": P("Configuration styles equivalent", "exploration",
-        "cases = setting sequences over {max retries, wait, batch concurrency, batch error handling, prep/exec/post/fallback function} x 3 values x {constructor option (both as NodeOption and as plain func(*BaseNode)), builder method, option applied to the embedded BaseNode later}, for NewNode and NewBatchNode: exhaustive for length<=2 (quick)/<=3 (thorough) over the four scalar parameters, rapid up to length 6 (+2) over all eight; "
+        "cases = setting sequences over {max retries, wait, batch concurrency, batch error handling, prep/exec/post/fallback function} x 3 values x {constructor option (both as NodeOption and as plain func(*BaseNode)), builder method}, for NewNode and NewBatchNode: exhaustive for length<=3 (quick)/<=5 (thorough) over the four scalar parameters, rapid up to length 6 (+2) over all eight; "
         "non-trivial = at least two different forms or an overwritten parameter",
         "oracle (metamorphic): expected configuration = last-wins fold over the actual application order; the sequence as given, its all-option and its all-builder realisation must show equal getters AND equal probe behaviour in a bubble (attempts of a failing item, virtual wait between attempts, in-flight count at quiescence, stop vs continue, which function instance ran); untouched parameters keep the documented defaults",
         "metamorphic generated search with exhaustive small scope",
